@@ -708,11 +708,18 @@ fn run_generated_history(rep: &mut Reporter, acct: &mut Acct, rng: &mut Rng, nop
     {
         let real_cfg = mk_ttl_config(&case.cfg);
         if let Some(m) = config_roundtrip_mismatch(&case.cfg, &real_cfg, &[T_A, T_NS, T_CNAME, T_SOA, T_MX, T_TXT, T_AAAA, T_PTR]) {
-            rep.inconclusive(&format!("harness: config adapter mismatch: {m}"));
+            if real::built_via_opts(&case.cfg) {
+                // TtlConfig::from_opts is code under test: the bounds an application sets in
+                // ResolverOpts must be the bounds the cache applies
+                rep.violation("config-from-opts", m.split(':').next().unwrap_or("bounds").split(" for ").next().unwrap_or("bounds"), json!({"config": case.cfg.to_json()}), json!("TtlConfig::from_opts holds the configured bounds"), json!(m));
+            } else {
+                rep.inconclusive(&format!("harness: config adapter mismatch: {m}"));
+            }
             return;
         }
     }
     rep.count("histories");
+    rep.count(if real::built_via_opts(&case.cfg) { "config_built/from_opts" } else { "config_built/deserialize" });
     rep.count(&format!("config_shape/{}", case.shape));
     rep.count(if case.future_base { "base/future" } else { "base/now" });
     let mut g = Gen { next_tag: 0, next_id: rng.u16() };
